@@ -17,7 +17,7 @@ for line in out.splitlines():
 anchors = {}
 for l in open(f'{V}/properties.jsonl'):
     d = json.loads(l); anchors[d['id']] = d.get('anchors', {}).get('files', [])
-KINDS = ["safe.nil","site","post","pre","monitor","inv.entry","inv.preserve","inv.iteration","loop.complete","guard.writer","own.release","own.handoff","own.use","own.store","lock.block",
+KINDS = ["safe.nil","site","post","pre","monitor","inv.entry","inv.preserve","inv.iteration","loop.complete","loop.over","guard.writer","own.release","own.handoff","own.use","own.store","lock.block","frame",
          # a property stated for all schedules depends on the race- and deadlock-freedom of the code it is anchored in (round 11)
          "guard.read","guard.write","guard.immutable","guard.atomic","lock.order","lock.relock","lock.balance","lock.unheld","lock.condwait"]
 # obligations that fail on the pinned tree and are dealt with under one property (known finding or not claimed there)
